@@ -28,7 +28,9 @@ type c18cfg struct {
 	Min   int
 }
 
-func (c c18cfg) String() string { return fmt.Sprintf("locus=%s max=%d min=%d", hx(c.Locus), c.Max, c.Min) }
+func (c c18cfg) String() string {
+	return fmt.Sprintf("locus=%s max=%d min=%d", hx(c.Locus), c.Max, c.Min)
+}
 
 type c18op struct {
 	Kind    string // put update keep delete expire get
